@@ -2,7 +2,8 @@
    The refinement theorems of C01 and C02 are EQUALITIES of ordered, literal-exact values (ojson:
    members as an ordered list, numbers by their literal text), against a reference whose order
    behaviour is the one the property describes.  So order and literals are part of what is proved. *)
-From JP Require Import Bytes Json Text Strings Den Pointer Rfc6902 Rfc7396 ImplV5 ImplMerge Domain JsonFacts DecodeFacts Abs ImplFacts RefFacts Depth ApplySim ImplMergeFacts.
+From JP Require Import Bytes Json Text Strings Den Pointer Rfc6902 Rfc7396 ImplV5 ImplMerge Domain JsonFacts DecodeFacts Abs ImplFacts RefFacts Depth ApplySim ImplMergeFacts MergeOrder.
+From Coq Require Import Permutation.
 
 (* Apply: the output encodes exactly the ordered reference result (same theorem as C01, read for
    its order/literal content: aval n = j is syntactic equality of ordered trees).  copies_fit: no
@@ -63,6 +64,22 @@ Theorem C05_merge_ordered : forall fuel p cur,
   aval (merge_n fuel false cur p) = merge_patch (aval cur) (den p) /\ nwf (merge_n fuel false cur p).
 Proof. exact merge_n_spec. Qed.
 Print Assumptions C05_merge_ordered.
+
+(* Go iterates over the patch's members in map (random) order; the model in list order.  The order
+   does not matter for the value: permuting the members of a merge patch, at any level, gives a
+   jeq-equal result (MergeOrder.v), so comparing outputs as values is sound; the ordered statement
+   above is about the members that survive, whose order does not depend on the iteration *)
+Theorem C05_merge_order_irrelevant : forall d ms ms',
+  Permutation ms ms' -> NoDup (map fst ms) -> Forall (fun kv => onodup (snd kv) = true) ms -> onodup d = true ->
+  jeq (merge_patch d (OObj ms)) (merge_patch d (OObj ms')) = true.
+Proof. exact merge_patch_perm. Qed.
+Print Assumptions C05_merge_order_irrelevant.
+
+Theorem C05_merge_respects_value_equality : forall p p' d d',
+  onodup p = true -> onodup p' = true -> onodup d = true -> onodup d' = true ->
+  jeq p p' = true -> jeq d d' = true -> jeq (merge_patch d p) (merge_patch d' p') = true.
+Proof. intros p p' d d'. exact (merge_patch_jeq_congr p p' d d'). Qed.
+Print Assumptions C05_merge_respects_value_equality.
 
 Example C05_nonvacuous :
   match api_decode (B "[{""op"":""add"",""path"":""/n"",""value"":2},{""op"":""replace"",""path"":""/b"",""value"":-0},{""op"":""remove"",""path"":""/c""},{""op"":""add"",""path"":""/a"",""value"":1e400}]") with
